@@ -6,6 +6,9 @@ TECH = "deterministic simulation with fault injection"
 NOTE_COMMON = ("Trusted base: the go/ast instrumenter (tools/instrument) and the sim packages (sim/simrt, simsync, simfs, simclock, simexec, simwire) reproduce the semantics of the constructs they replace; "
                "the oracle/reference model written in sim/engine; Go toolchain go1.26.8. Seeded search: a clean batch is evidence, not proof. ")
 CHECKS = {
+ "C19": dict(level="exploration", design="5.19",
+   text="Full-server simulation in which the second party is simulated: the server ASKS the client for its configuration from a background goroutine and applies the answer when it comes. The simulated client answers with generated payloads of every shape the property names (per documented key: right type, number as string, integral and non-integral float, boolean as string, null, array, object, zero, negative, unknown keys, nested/dotted spelling, with/without wrapper, non-object payloads), or with an error, with [], late, never, with up to two refreshes in flight, under 7 schedule policies. An independent ~120-line settings model predicts the acceptable value set per key and is compared ONLY through behaviour probes at quiescence (capabilities, completion count/matching/details, formatting and inline-completion layout, diagnostic codes, limit numbers in include diagnostics); every event is followed by requests that must be answered.",
+   note="One open known finding: with two refreshes in flight, answers that set the same key are applied in goroutine order, not in the order the client sent them (class reply-order: recognised by re-evaluating the observation against the model with the overlapping replies permuted). Values the text leaves open (non-integral floats, numbers beyond int64) are modelled as sets."),
  "C15": dict(level="exploration", design="5.15",
    text="Full-server simulation in which the iteration order of EVERY map range of the repository's code (58 rewritten range statements, plus sync.Map.Range) and the background schedule are simulator decisions: one generated world and one fixed request script per run are executed on V fresh servers (canonical order + sequential schedule vs seeded permutations + seeded schedules), every request twice; everything the client received at quiescent points must be byte-identical after canonical JSON. A dependence on map order is therefore found in two executions and replays exactly, instead of hoping the runtime's random order differs within 50 repetitions; on a mismatch the permutation is narrowed to the single range statements that matter and they are named in the report.",
    note="Map ranges inside dependencies are not rewritten (only the repository's own code); semantic-token result ids are opaque and blanked."),
